@@ -167,6 +167,26 @@ Fixpoint loop_run (w : wheel) (ts : list turn) : R (list (list waker) * wheel) :
     Ok (ws :: wss, w2)
   end.
 
+(* COUNTER-MODEL, used only by a refutation (prop/C09.v): a poll_with that wakes
+   the wheel only when the driver timed out.  Not the code. *)
+Definition poll_with_timeout_only (ans : drv_answer) (now : Z) (w : wheel)
+  : R (list waker * wheel) :=
+  match ans with
+  | DError => Panic P_OTHER
+  | DTimedOut => Ok (wake now w)
+  | _ => Ok ([], w)
+  end.
+
+Fixpoint timeout_only_run (w : wheel) (ts : list (drv_answer * Z))
+  : R (list (list waker) * wheel) :=
+  match ts with
+  | [] => Ok ([], w)
+  | (ans, now) :: r =>
+    let! '(ws, w1) := poll_with_timeout_only ans now w in
+    let! '(wss, w2) := timeout_only_run w1 r in
+    Ok (ws :: wss, w2)
+  end.
+
 (* ---------------------------------------------------------------------- *)
 (* programs over the wheel (what futures holding keys can do to it)         *)
 
